@@ -19,7 +19,7 @@ type c05inst struct {
 	parser *parsers.ExpressionParser
 	calc   *calculator.ExpressionCalculator
 	tmpl   *mustache.MustacheTemplate
-	fnops  []Ev // changes made to the calculator's default functions so far (a fresh calculator gets the same ones)
+	fnops  []Ev   // changes made to the calculator's default functions so far (a fresh calculator gets the same ones)
 	mgr    string // variant operations installed last ("" = the default)
 	text   string // expression set last
 }
@@ -242,7 +242,7 @@ func init() {
 	c05extra = append(c05extra, genC05b)
 }
 
-var c05exprPool = []string{"1 / 0", "arr[9]", "Nope(1)", "1 << (0 - 1)", "'a' - 1", "a / (b - 3)", "Min(1)", "a LIKE b","'abc' = 'abc'", "'abc' = 'ABC'", "'x' + 'y'", "'x' + 'Y'", "s = 'abc'", "S = 'ABC'", "a + b", "a <= b", "a <> b", "a << 1", "a >= b", "a >> 1", "a != b", "1 +", "2 + * 3", "(1 + 2", "a[1", "f(a,",
+var c05exprPool = []string{"1 / 0", "arr[9]", "Nope(1)", "1 << (0 - 1)", "'a' - 1", "a / (b - 3)", "Min(1)", "a LIKE b", "'abc' = 'abc'", "'abc' = 'ABC'", "'x' + 'y'", "'x' + 'Y'", "s = 'abc'", "S = 'ABC'", "a + b", "a <= b", "a <> b", "a << 1", "a >= b", "a >> 1", "a != b", "1 +", "2 + * 3", "(1 + 2", "a[1", "f(a,",
 	"x y 7 + 1", "a * b + 2", "] ] ) , 5", "'abc' + s", "NOT a IS NULL", "a NOT", "", "$", "a IS", "Min(a, b)", "a /* c", "'open"}
 var c05tmplPool = []string{"Hello, {{NAME}}!", "Hello, {{NAME", "{{#a}}x{{/a}}", "{{#a}}x", "{{/a}}", "{{{NAME}}}", "plain text", "{{", "}}", "",
 	"{{#if e}}no{{/if}}{{^e}}yes{{/e}}", "{{a}}{{ NAME }} {", "{{#a}}{{#e}}{{/a}}", "{{! c }}t"}
